@@ -15,17 +15,18 @@ type Val struct {
 	IsL  bool
 }
 
-func A(s string) Val          { return Val{Atom: s} }
-func L(vs ...Val) Val         { return Val{List: vs, IsL: true} }
-func I(n int64) Val           { return Val{Atom: strconv.FormatInt(n, 10)} }
-func U(n uint64) Val          { return Val{Atom: strconv.FormatUint(n, 10)} }
-func X(b []byte) Val          { return Val{Atom: "x" + hex.EncodeToString(b)} }
+func A(s string) Val  { return Val{Atom: s} }
+func L(vs ...Val) Val { return Val{List: vs, IsL: true} }
+func I(n int64) Val   { return Val{Atom: strconv.FormatInt(n, 10)} }
+func U(n uint64) Val  { return Val{Atom: strconv.FormatUint(n, 10)} }
+func X(b []byte) Val  { return Val{Atom: "x" + hex.EncodeToString(b)} }
 func B(b bool) Val {
 	if b {
 		return A("1")
 	}
 	return A("0")
 }
+
 // XN: hex bytes or the atom nil for a Go nil slice
 func XN(b []byte) Val {
 	if b == nil {
